@@ -1527,7 +1527,8 @@ reg("C07", ["Props.C07_cp_is_own_plus_distinct_descendants", "GM.C07_cp_order_in
             "GM.descAll_nodup", "Props.C07_pinned_counts_paths", "GM.C07_pinned_order_dependent",
             "Props.C07_next_pick_is_determined", "Props.C07_pick_unique",
             "Props.C07_configuration_law", "Props.C07_configuration_refused_iff", "Props.C07_configuration_idempotent",
-            "Props.C07_refused_configuration_changes_nothing", "Props.C07_retry_after_refusal", "Props.C07_restricted_table_would_rank_differently"],
+            "Props.C07_refused_configuration_changes_nothing", "Props.C07_retry_after_refusal", "Props.C07_restricted_table_would_rank_differently",
+            "Props.C07_flags_only_configuration_keeps_the_table"],
     run_G, ASSUME_G)
 reg("C12", ["GM.C12_closure", "Props.C12_selection_is_closure", "GM.selectNodes_none", "GM.mem_descAll_iff", "Props.C12_restriction_keeps_values", "Props.C12_alias_tag_wins", "Props.C12_alias_id", "Props.C12_alias_unknown_refused", "Props.C12_alias_list_is_union", "Props.C12_alias_list_refused_iff", "Props.C12_unselected_nodes_keep_their_value", "Props.C12_targets_only", "Props.C12_empty_lists", "Props.C12_repeated_names"], run_G, ASSUME_G)
 
